@@ -523,7 +523,7 @@ func (f *Findings) match(prop string, c *Cluster) *Finding {
 func ParentMain(id, tier string) int {
 	start := time.Now()
 	verif := envOr("VERIF", "/verif")
-	work := filepath.Join(verif, ".work")
+	work := envOr("VERIF_WORK", filepath.Join(verif, ".work"))
 	c := Lookup(id)
 	if c == nil {
 		fmt.Fprintln(os.Stderr, "jmc: unknown check", id)
@@ -789,7 +789,7 @@ func JudgeMain(file string) int {
 // ReplayMain re-runs a replay file; the caller (bin/check) has rebuilt the binaries.
 func ReplayMain(file string) int {
 	verif := envOr("VERIF", "/verif")
-	work := filepath.Join(verif, ".work")
+	work := envOr("VERIF_WORK", filepath.Join(verif, ".work"))
 	b, err := os.ReadFile(file)
 	if err != nil {
 		fmt.Fprintln(os.Stderr, "jmc:", err)
